@@ -30,6 +30,8 @@ open Lean CnvVerif.Drv
 
 def handlers : List (String → Json → Option Json → R (Option Json)) :=
   [handleInterval, handleCall, handleCallCmd, handleSegFilter, handleSegFilterExt, handleTile, handleCenter, handleSexExt, handleFix, handleAccess, Genes.handleGenes, handleFormats, handleFormatsExt, handleExport, handleExportExt, Reference.handleReference, handleCoverage, handleCoverageExt, handleEffects, handleBins, handleVcf, handleVcfExt, handleDescriptives, Haar.handleHaar, HaarExt.handleHaarExt, handleStats, handleStatsGlue]
+import CnvVerif.Driver.RangesExt
+  [handleInterval, handleCall, handleSegFilter, handleTile, handleCenter, handleFix, handleAccess, Genes.handleGenes, handleFormats, handleExport, Reference.handleReference, handleCoverage, handleEffects, handleBins, handleVcf, handleDescriptives, Haar.handleHaar, handleStats, handleRangesExt]
 
 def dispatch (op : String) (inp : Json) (impl : Option Json) : R Json := do
   for h in handlers do
